@@ -52,7 +52,7 @@ type c12Params struct {
 func (c12) ID() string    { return "C12" }
 func (c12) Level() string { return "exploration" }
 func (c12) Rule() string {
-	return "seeded API histories on the stream stack, five families: (cut) a writer sends N records and then closes / half-closes / does nothing while the transport of that direction ends before or inside a drawn record at a drawn byte offset (thorough: every offset of small records), the reader keeps calling Read after the end; (alert) after a clean handshake a scripted peer sends protected alerts of every level and a range of descriptions, single or in runs; (early-app) a scripted peer sends application data - with or without payload - after k handshake messages, up to between its ChangeCipherSpec and Finished; (cancel) HandshakeContext is cancelled while the peer stalls after k handshake messages - in a third of the cases another task had started the handshake through Read and is blocked in it; (hs-timeout) the connection deadline expires during the handshake because the peer is slow, is cleared, and the peer's messages arrive late; (api) sequences of Close / CloseWrite / Write / Read / Handshake / renewing the deadlines on one end, incl. before the handshake. Oracle: a small state machine per end - delivered bytes are a prefix of what the peer wrote made of whole records; io.EOF only after everything written was delivered and only on close_notify or a cut exactly on a record boundary; a cut inside a record gives io.ErrUnexpectedEOF; every later Read repeats the failure and delivers nothing; after Close every call fails and a second Close reports net.ErrClosed; Write after CloseWrite fails; a failed handshake stays failed; early application data is never delivered; a cancelled handshake returns the context's error. distinct = distinct parameter vectors; non-trivial = the event under test happened"
+	return "seeded API histories on the stream stack, families: (cut) a writer sends N records and then closes / half-closes / does nothing while the transport of that direction ends before or inside a drawn record at a drawn byte offset (thorough: every offset of small records), the reader keeps calling Read after the end; (alert) after a clean handshake a scripted peer sends protected alerts of every level and a range of descriptions, single or in runs; (early-app) a scripted peer sends application data - with or without payload - after k handshake messages, up to between its ChangeCipherSpec and Finished; (cancel) HandshakeContext is cancelled while the peer stalls after k handshake messages - in a third of the cases another task had started the handshake through Read and is blocked in it; (hs-timeout) the connection deadline expires during the handshake because the peer is slow, is cleared, and the peer's messages arrive late; (close-inflight) Close while another task's Write is blocked in a full transport and the peer's data waits in the buffer; (api) sequences of Close / CloseWrite / Write / Read / Handshake / renewing the deadlines on one end, incl. before the handshake. Oracle: a small state machine per end - delivered bytes are a prefix of what the peer wrote made of whole records; io.EOF only after everything written was delivered and only on close_notify or a cut exactly on a record boundary; a cut inside a record gives io.ErrUnexpectedEOF; every later Read repeats the failure and delivers nothing; after Close every call fails and a second Close reports net.ErrClosed; Write after CloseWrite fails; a failed handshake stays failed; early application data is never delivered; a cancelled handshake returns the context's error. distinct = distinct parameter vectors; non-trivial = the event under test happened"
 }
 func (c12) Components() (real, stub []string) {
 	return []string{"tlcp.Conn (instrumented): Read/Write/Close/CloseWrite/HandshakeContext, alert handling, error latching", "the handshake-context interrupter goroutine (real, unmanaged; its transport Close is awaited as an external event)"},
@@ -114,6 +114,10 @@ func drawC12(src *vs.Src) *c12Params {
 			// deadline is then cleared and the peer's messages arrive late
 			p.Mode = "hs-timeout"
 		}
+	case 8:
+		// Close from one task while another task's Write is blocked in a full transport; data from the peer is
+		// waiting in the connection's buffers
+		p.Mode = "close-inflight"
 	default:
 		p.Mode = "api"
 		n := 2 + src.Intn(6)
@@ -146,6 +150,8 @@ func (c12) Run(c *Case, src *vs.Src) *Result {
 		c12Scripted(c, src, p, r)
 	case "api":
 		c12API(c, src, p, r)
+	case "close-inflight":
+		c12CloseInflight(c, src, p, r)
 	}
 	return r
 }
@@ -652,4 +658,80 @@ func c12API(c *Case, src *vs.Src, p *c12Params, r *Result) {
 		}
 	}
 	r.Stat("api_sequences", 1)
+}
+
+// c12CloseInflight: Close while a Write of another task is blocked in the transport. Afterwards the connection is
+// closed for every caller: Read delivers nothing (although the peer's data had arrived), Write fails, a second
+// Close reports net.ErrClosed.
+func c12CloseInflight(c *Case, src *vs.Src, p *c12Params, r *Result) {
+	sigp := "C12 close-inflight"
+	w, pair := c12Pair(c, src, p)
+	ut, peerEP := pair.C, pair.S
+	utRaw, peerRaw := pair.Pipe.C, pair.Pipe.S
+	if p.Dir == 1 {
+		ut, peerEP, utRaw, peerRaw = pair.S, pair.C, pair.Pipe.S, pair.Pipe.C
+	}
+	var hsErr, wErr, close1, close2, readErr, write2 error
+	readN := 0
+	stage := 0
+	inWrite := false
+	w.Go("peer", func() {
+		if err := peerEP.Handshake(); err != nil {
+			return
+		}
+		peerEP.Write([]byte("hello from the peer"))
+		// never reads; goes away late
+		vs.Block(func() bool { return stage == 3 }, vs.Now().Add(40*time.Second))
+		peerEP.Close()
+	})
+	w.Go("ut-writer", func() {
+		if hsErr = ut.Handshake(); hsErr != nil {
+			stage = 9
+			return
+		}
+		// read part of the peer's record, so that the rest waits in the connection's buffer
+		b := make([]byte, 1)
+		ut.Read(b)
+		utRaw.SetLimit(2000)
+		stage = 1
+		for k := 0; k < 20 && wErr == nil; k++ {
+			inWrite = true
+			_, wErr = ut.Write(make([]byte, 1000))
+			inWrite = false
+		}
+	})
+	w.Go("ut-closer", func() {
+		vs.Block(func() bool { return stage != 0 }, time.Time{})
+		if stage == 9 {
+			return
+		}
+		vs.Block(func() bool { return inWrite && peerRaw.Pending() >= 2000 }, vs.Now().Add(5*time.Second))
+		close1 = ut.Close()
+		buf := make([]byte, 64)
+		readN, readErr = ut.Read(buf)
+		_, write2 = ut.Write([]byte("after close"))
+		close2 = ut.Close()
+		stage = 3
+	})
+	reason, unf := w.Run()
+	w.Finish(r, sigp)
+	if hsErr != nil {
+		r.Violate("setup", sigp+" handshake-failed", "%v", hsErr)
+		return
+	}
+	if reason != vs.Done {
+		r.Violate("not-ended", sigp+" not-ended "+reason, "run ended with %q, unfinished %v", reason, unf)
+		return
+	}
+	r.Outcome = fmt.Sprintf("close=%v read=%d,%v write=%v close2=%v", close1, readN, readErr, write2, close2)
+	if readN > 0 || readErr == nil {
+		r.Violate("api", sigp+" read-after-close", "after Close (returned %v) with a Write blocked in the transport, Read returned n=%d err=%v", close1, readN, readErr)
+	}
+	if write2 == nil {
+		r.Violate("api", sigp+" write-after-close", "Write after Close returned nil")
+	}
+	if close2 != net.ErrClosed {
+		r.Violate("api", sigp+" second-close", "second Close returned %v (want net.ErrClosed)", close2)
+	}
+	r.Stat("close_inflight", 1)
 }
